@@ -160,12 +160,12 @@ func (m *vFakeManager) DeleteUser(UID []byte) error {
 
 // vPanel builds a userPanel without its background upload goroutine.
 func vPanel(m usermanager.UserManager) *userPanel {
-	return &userPanel{
-		Manager:          m,
-		activeUsers:      make(map[[16]byte]*ActiveUser),
-		usageUpdateQueue: make(map[[16]byte]*usagePair),
-		uploadInterval:   defaultUploadInterval,
+	p := &userPanel{
+		Manager:        m,
+		uploadInterval: defaultUploadInterval,
 	}
+	vInitMaps(reflect.ValueOf(p).Elem())
+	return p
 }
 
 func vPRF(tag uint64, off uint64) byte {
@@ -228,12 +228,45 @@ func init() {
 // still nil gets an empty map (the harness does not go through InitState because that starts the panel's upload
 // goroutine and resolves addresses; a State with a nil map is something InitState never produces).
 func vState(sta *State) *State {
-	v := reflect.ValueOf(sta).Elem()
+	vInitMaps(reflect.ValueOf(sta).Elem())
+	return sta
+}
+
+func vInitMaps(v reflect.Value) {
 	for i := 0; i < v.NumField(); i++ {
 		f := v.Field(i)
 		if f.Kind() == reflect.Map && f.IsNil() {
 			reflect.NewAt(f.Type(), unsafe.Pointer(f.UnsafeAddr())).Elem().Set(reflect.MakeMap(f.Type()))
 		}
 	}
-	return sta
+}
+
+// vQueueUsage puts (up, down) into the panel's usage queue for uid, as updateUsageQueue would, whatever the queue's
+// element representation is (pointer or value, counters by pointer or by value). The caller holds no lock.
+func vQueueUsage(p *userPanel, uid [16]byte, up, down int64) {
+	p.usageUpdateQueueM.Lock()
+	defer p.usageUpdateQueueM.Unlock()
+	f := reflect.ValueOf(p).Elem().FieldByName("usageUpdateQueue")
+	mv := reflect.NewAt(f.Type(), unsafe.Pointer(f.UnsafeAddr())).Elem()
+	et := mv.Type().Elem()
+	st := et
+	if et.Kind() == reflect.Ptr {
+		st = et.Elem()
+	}
+	nv := reflect.New(st)
+	for name, val := range map[string]int64{"up": up, "down": down} {
+		fv := nv.Elem().FieldByName(name)
+		fv = reflect.NewAt(fv.Type(), unsafe.Pointer(fv.UnsafeAddr())).Elem()
+		if fv.Kind() == reflect.Ptr {
+			x := val
+			fv.Set(reflect.ValueOf(&x))
+		} else {
+			fv.SetInt(val)
+		}
+	}
+	if et.Kind() == reflect.Ptr {
+		mv.SetMapIndex(reflect.ValueOf(uid), nv)
+	} else {
+		mv.SetMapIndex(reflect.ValueOf(uid), nv.Elem())
+	}
 }
